@@ -32,7 +32,7 @@ NODES = dict(Issuers='{"i1"}', MaxCreds=2, MaxTicks=1, RenewCreatedAt='TRUE', Re
 SERVE = dict(Issuers='{"i1"}', Nodes='{"n1"}', MaxCreds=2, MaxTicks=6, Kinds='{"sl"}', RevForgeKinds='{}', Srcs='{"up", "down"}', ForeignTarget='"none"',
              Servers='{"s1"}')
 ALL_SIZES = '{"min", "odd", "double"}'
-EXT = dict(Issuers='{"i1"}', Nodes='{"n1"}', MaxCreds=3, MaxTicks=1, Kinds='{"ext"}', RevForgeKinds='{}', Srcs='{"up", "down", "forged-set", "forged-clear"}',
+EXT = dict(Issuers='{"i1"}', Nodes='{"n1"}', MaxCreds=2, MaxTicks=1, Kinds='{"ext"}', RevForgeKinds='{}', Srcs='{"up", "down", "forged-set", "forged-clear"}',
            ForeignTarget='"none"', Local='FALSE', ExtSizes=ALL_SIZES)
 ALLOC = dict(Nodes='{}', MaxCreds=4, MaxTicks=0, MaxForge=0, Kinds='{"sl"}', RevForgeKinds='{}', Srcs='{"up"}', ForeignTarget='"none"',
              Local='FALSE', Procs='{"p1", "p2"}')
@@ -69,8 +69,9 @@ CFGS = {
                        dict(SERVE, MaxTicks=6, MaxCreds=3)),
     "serve2.thorough": ("serving over a long time (8 ticks = two validity periods), TWO GETs split at their transactions", CHECK,
                         dict(SERVE, MaxTicks=8, MaxCreds=2, Servers='{"s1", "s2"}')),
-    "ext.thorough": ("external issuers (all list sizes and positions) next to a hosted issuer, 2 nodes", CHECK,
-                     dict(EXT, Nodes='{"n1", "n2"}', Kinds='{"ext", "sl"}', MaxCreds=3, ForeignTarget='"i1"', Local='TRUE')),
+    "ext.thorough": ("external issuers (minimum and double size) next to a hosted issuer, 2 nodes", CHECK,
+                     dict(EXT, Nodes='{"n1", "n2"}', Kinds='{"ext", "sl"}', ExtSizes='{"double", "min"}')),
+    "ext2.thorough": ("one external issuer with an odd-sized list, 3 credentials", CHECK, dict(EXT, MaxCreds=3, ExtSizes='{"odd"}')),
     "alloc.thorough": ("Entry() split at the row lock: three concurrent transactions, 5 entries", CHECK, dict(ALLOC, MaxCreds=5, Procs='{"p1", "p2", "p3"}')),
     # --- deviation configs: the named check switched off MUST violate the named invariant ---------------------
     "dev.listissuer": ("deviation F15: issuer of the fetched list not compared -> a list issued by another party revokes", _inv("IssuerOnly"),
@@ -96,7 +97,7 @@ CFGS = {
     "gen.nodes": ("behaviour generation, two nodes and both mechanisms", _inv("Emit"), dict(NODES, **GEN)),
     "gen.serve": ("behaviour generation, GETs split at their transaction racing with Revoke, other GETs and time", _inv("Emit"),
                   dict(SERVE, MaxTicks=4, **GEN)),
-    "gen.ext": ("behaviour generation, external issuers: list sizes x positions", _inv("Emit"), dict(EXT, **GEN)),
+    "gen.ext": ("behaviour generation, external issuers: list sizes x positions", _inv("Emit"), dict(EXT, Srcs='{"up", "down"}', **GEN)),
     "gen.sim": ("behaviour generation by simulation at the full bounds (2 issuers, 2 nodes, roll-over at B=3, both mechanisms, all forgeries, split GETs)",
                 _inv("Emit"), dict(MaxCreds=5, B=3, MaxTicks=5, MaxForge=2, Rels=ALL_RELS, Servers='{"s1"}', ExtSizes=ALL_SIZES, Kinds='{"sl", "net", "ext"}', **GEN)),
     "gen.alloc": ("witnesses of the split Entry transaction (documentation of the schedules TLC covers)", _inv("EmitAlloc"), dict(ALLOC, Hist='TRUE')),
@@ -394,7 +395,7 @@ def run(prop, tier, seed, replay=None):
     # 1. the prescriptive design satisfies C11 (exhaustive, family by family)
     states = transitions = 0
     models, cover = [], {}
-    fams = ["status", "net", "nodes", "serve", "ext", "alloc"] + ([] if quick else ["mixed", "serve2"])
+    fams = ["status", "net", "nodes", "serve", "ext", "alloc"] + ([] if quick else ["mixed", "serve2", "ext2"])
     for fam in fams:
         key = "%s.%s" % (fam, "quick" if quick or fam == "" else "thorough")
         m = vlib.tlc("MCRevocation", cfg_name(key), workers=WORKERS, timeout=1500, coverage=not quick)
